@@ -132,3 +132,179 @@ Proof.
   split; [exact H1|]. split; [exact H2|]. split; [exact H3|].
   rewrite HmaxF in H1. split; [apply isWinScore_false|apply isLoseScore_false]; lia.
 Qed.
+
+(** ------------------------------------------------------------------------------------------
+    The on-demand probe and the tablebase return site on a position the table knows. *)
+
+(** a value the generator can produce: mates of at most 1000 plies (C12: at most 126) *)
+Definition tbval_ok (v : tbval) : Prop := 0 <= tbval_plies v <= 1000 /\ (forall n, v = TWin n -> (1 <= n)%nat).
+
+Lemma label_score_win : forall n ply, (1 <= n)%nat -> 2 * Z.of_nat n - 1 <= 1000 -> 0 <= ply <= max_ply ->
+  label_score (TWin n) ply = MATE0 - ply - 2 * Z.of_nat n /\ isWinScore (label_score (TWin n) ply) = true.
+Proof.
+  intros n ply Hn Hk Hp. rewrite max_ply_val in Hp. unfold label_score, dtm_score.
+  assert (Hm : MATE0 = 32000) by reflexivity. split; [lia|]. apply isWinScore_spec. lia.
+Qed.
+
+Lemma label_score_loss : forall n ply, 2 * Z.of_nat n <= 1000 -> 0 <= ply <= max_ply ->
+  label_score (TLoss n) ply = - (MATE0 - ply - 2 * Z.of_nat n - 1) /\ isLoseScore (label_score (TLoss n) ply) = true.
+Proof.
+  intros n ply Hk Hp. rewrite max_ply_val in Hp. unfold label_score, dtm_score.
+  assert (Hm : MATE0 = 32000) by reflexivity. split; [lia|]. apply isLoseScore_spec. lia.
+Qed.
+
+(** the probe of a known position: exact iff the mate fits before the 50-move limit; otherwise
+    score 0 with bound type by the sign and a non-zero swindle distance *)
+Lemma probe_of_cases : forall v ply hmc,
+  tbval_ok v -> 0 <= ply <= max_ply ->
+  match v with
+  | TDraw => probe_of v ply hmc = (T_EXACT, 0, 0)
+  | _ =>
+    (tbval_plies v + hmc <= 100 -> probe_of v ply hmc = (T_EXACT, label_score v ply, 0)) /\
+    (100 < tbval_plies v + hmc ->
+       exists ev, ev <> 0 /\
+         probe_of v ply hmc = ((match v with TWin _ => T_GE | _ => T_LE end), 0, ev) /\
+         (match v with TWin _ => 0 < ev | _ => ev < 0 end))
+  end.
+Proof.
+  intros v ply hmc [Hv Hw] Hp.
+  assert (Hm : MATE0 = 32000) by reflexivity.
+  assert (Hp' := Hp). rewrite max_ply_val in Hp'.
+  assert (Hz : ttGetScore (ttSetScore 0 ply) ply = 0).
+  { destruct (score_ply_algebra 0 ply ply ltac:(lia) Hp Hp) as (_ & _ & _ & _ & HN). apply HN; reflexivity. }
+  destruct v as [n|n|].
+  - unfold tbval_plies in Hv. specialize (Hw n eq_refl).
+    destruct (label_score_win n ply Hw ltac:(lia) Hp) as [E W].
+    assert (Hd : - MATE0 <= label_score (TWin n) ply <= MATE0) by lia.
+    destruct (score_ply_algebra _ ply ply Hd Hp Hp) as (_ & _ & HW & _ & _).
+    unfold probe_of, tbProbe_ondemand, rule50Margin.
+    assert ((label_score (TWin n) ply =? 0) = false) as -> by lia.
+    assert ((0 <? label_score (TWin n) ply) = true) as -> by lia.
+    replace (100 - hmc - (MATE0 - 1 - Z.abs (label_score (TWin n) ply) - ply)) with (100 - hmc - (2 * Z.of_nat n - 1)) by lia.
+    split.
+    + intros Hfit. unfold tbval_plies in Hfit.
+      assert ((0 <=? 100 - hmc - (2 * Z.of_nat n - 1)) = true) as -> by lia.
+      assert ((100 - hmc - (2 * Z.of_nat n - 1) <? 0) = false) as -> by lia.
+      rewrite (HW W). f_equal. f_equal. lia.
+    + intros Hnf. unfold tbval_plies in Hnf.
+      assert ((0 <=? 100 - hmc - (2 * Z.of_nat n - 1)) = false) as -> by lia.
+      assert ((100 - hmc - (2 * Z.of_nat n - 1) <? 0) = true) as -> by lia.
+      unfold updateEvScore. change (0 =? 0) with true. cbv [orb].
+      exists (- (100 - hmc - (2 * Z.of_nat n - 1))). split; [lia|]. split; [|lia].
+      rewrite Hz. reflexivity.
+  - unfold tbval_plies in Hv.
+    destruct (label_score_loss n ply ltac:(lia) Hp) as [E L].
+    assert (Hd : - MATE0 <= label_score (TLoss n) ply <= MATE0) by lia.
+    destruct (score_ply_algebra _ ply ply Hd Hp Hp) as (_ & _ & _ & HL & _).
+    unfold probe_of, tbProbe_ondemand, rule50Margin.
+    assert ((label_score (TLoss n) ply =? 0) = false) as -> by lia.
+    assert ((0 <? label_score (TLoss n) ply) = false) as -> by lia.
+    replace (100 - hmc - (MATE0 - 1 - Z.abs (label_score (TLoss n) ply) - ply)) with (100 - hmc - (2 * Z.of_nat n)) by lia.
+    split.
+    + intros Hfit. unfold tbval_plies in Hfit.
+      assert ((0 <=? 100 - hmc - (2 * Z.of_nat n)) = true) as -> by lia.
+      assert ((100 - hmc - (2 * Z.of_nat n) <? 0) = false) as -> by lia.
+      rewrite (HL L). f_equal. f_equal. lia.
+    + intros Hnf. unfold tbval_plies in Hnf.
+      assert ((0 <=? 100 - hmc - (2 * Z.of_nat n)) = false) as -> by lia.
+      assert ((100 - hmc - (2 * Z.of_nat n) <? 0) = true) as -> by lia.
+      unfold updateEvScore. change (0 =? 0) with true. cbv [orb].
+      exists (100 - hmc - (2 * Z.of_nat n)). split; [lia|]. split; [|lia].
+      rewrite Hz. reflexivity.
+  - unfold probe_of, tbProbe_ondemand. simpl label_score. change (0 =? 0) with true. cbv iota.
+    rewrite Hz. reflexivity.
+Qed.
+
+Lemma swindle_nonmate : forall e d, isWinScore (swindleScore e d) = false /\ isLoseScore (swindleScore e d) = false.
+Proof. intros e d. destruct (swindle_range e d) as (_ & _ & _ & H). exact H. Qed.
+
+(** the site: a mate score leaves it only as the exact table value of a mate that fits before
+    the 50-move limit; everything else it produces is a non-mate score; windows only narrow *)
+Theorem tb_node_cases : forall v ply hmc a b depth evalScore,
+  tbval_ok v -> 0 <= ply <= max_ply ->
+  match tb_node v ply hmc a b depth evalScore with
+  | SCut s ty =>
+      (isWinScore s = false /\ isLoseScore s = false) \/
+      (v <> TDraw /\ tbval_plies v + hmc <= 100 /\ s = label_score v ply /\ ty = T_EXACT)
+  | SGo a' b' tbs tbt =>
+      isWinScore tbs = false /\ isLoseScore tbs = false /\
+      ((tbt = T_EMPTY /\ a' = a /\ b' = b) \/
+       (tbt = T_GE /\ a' = tbs - 1 /\ b' = b /\ a < tbs /\ exists n, v = TWin n) \/
+       (tbt = T_LE /\ a' = a /\ b' = tbs + 1 /\ tbs < b /\ exists n, v = TLoss n)) /\
+      (v <> TDraw -> 100 < tbval_plies v + hmc)
+  end.
+Proof.
+  intros v ply hmc a b depth evalScore Hv Hp.
+  pose proof (probe_of_cases v ply hmc Hv Hp) as PC.
+  assert (Hmf : maxFrustrated = 70) by reflexivity.
+  assert (H0 : isWinScore 0 = false /\ isLoseScore 0 = false) by (split; reflexivity).
+  unfold tb_node.
+  destruct v as [n|n|].
+  - destruct PC as [Pfit Pnf].
+    destruct (Z_le_gt_dec (tbval_plies (TWin n) + hmc) 100) as [Hf|Hf].
+    + rewrite (Pfit Hf).
+      destruct Hv as [Hv Hw]. unfold tbval_plies in Hv. specialize (Hw n eq_refl).
+      destruct (label_score_win n ply Hw ltac:(lia) Hp) as [E W].
+      apply isWinScore_spec in W.
+      unfold tb_site.
+      assert ((label_score (TWin n) ply =? 0) = false) as -> by lia.
+      cbv [andb negb]. change (T_EXACT =? T_EXACT) with true. cbv [orb andb].
+      right. repeat split; try discriminate; try lia.
+    + destruct (Pnf ltac:(lia)) as (ev & Hev & -> & Hpos).
+      unfold tb_site. change (0 =? 0) with true. change (T_GE =? T_EXACT) with false.
+      change (T_GE =? T_GE) with true. change (T_GE =? T_LE) with false. cbv [andb orb negb].
+      destruct (swindle_nonmate 0 ev) as [SW SL].
+      destruct (swindle_range 0 ev) as (_ & _ & Hfr & _). destruct (Hfr Hev) as (Hmin & Hp1 & _).
+      specialize (Hp1 Hpos).
+      destruct (depth <? drawSwindleReduction) eqn:D; cbv [andb orb negb].
+      * destruct (b <=? swindleScore 0 ev) eqn:C.
+        -- left. split; assumption.
+        -- destruct (a <? swindleScore 0 ev) eqn:A.
+           ++ split; [exact SW|]. split; [exact SL|]. split; [|intros _; lia].
+              right. left. repeat split; try lia. exists n. reflexivity.
+           ++ split; [reflexivity|]. split; [reflexivity|]. split; [|intros _; lia].
+              left. repeat split.
+      * destruct (a <? 0) eqn:A.
+        -- split; [reflexivity|]. split; [reflexivity|]. split; [|intros _; lia].
+           right. left. repeat split; try lia. exists n. reflexivity.
+        -- split; [reflexivity|]. split; [reflexivity|]. split; [|intros _; lia].
+           left. repeat split.
+  - destruct PC as [Pfit Pnf].
+    destruct (Z_le_gt_dec (tbval_plies (TLoss n) + hmc) 100) as [Hf|Hf].
+    + rewrite (Pfit Hf).
+      destruct Hv as [Hv Hw]. unfold tbval_plies in Hv.
+      destruct (label_score_loss n ply ltac:(lia) Hp) as [E L].
+      apply isLoseScore_spec in L.
+      unfold tb_site.
+      assert ((label_score (TLoss n) ply =? 0) = false) as -> by lia.
+      cbv [andb negb]. change (T_EXACT =? T_EXACT) with true. cbv [orb andb].
+      right. repeat split; try discriminate; try lia.
+    + destruct (Pnf ltac:(lia)) as (ev & Hev & -> & Hneg).
+      unfold tb_site. change (0 =? 0) with true. change (T_LE =? T_EXACT) with false.
+      change (T_LE =? T_GE) with false. change (T_LE =? T_LE) with true. cbv [andb orb negb].
+      destruct (swindle_nonmate 0 ev) as [SW SL].
+      destruct (swindle_range 0 ev) as (_ & _ & Hfr & _). destruct (Hfr Hev) as (Hmin & _ & Hn1).
+      specialize (Hn1 Hneg).
+      destruct (depth <? drawSwindleReduction) eqn:D; cbv [andb orb negb].
+      * destruct (swindleScore 0 ev <=? a) eqn:C.
+        -- left. split; assumption.
+        -- destruct (swindleScore 0 ev <? b) eqn:B.
+           ++ split; [exact SW|]. split; [exact SL|]. split; [|intros _; lia].
+              right. right. repeat split; try lia. exists n. reflexivity.
+           ++ split; [reflexivity|]. split; [reflexivity|]. split; [|intros _; lia].
+              left. repeat split.
+      * destruct (0 <? b) eqn:B.
+        -- split; [reflexivity|]. split; [reflexivity|]. split; [|intros _; lia].
+           right. right. repeat split; try lia. exists n. reflexivity.
+        -- split; [reflexivity|]. split; [reflexivity|]. split; [|intros _; lia].
+           left. repeat split.
+  - rewrite PC. unfold tb_site. change (0 =? 0) with true. change (T_EXACT =? T_EXACT) with true. cbv [andb].
+    destruct (depth <? drawSwindleReduction).
+    + left. apply swindle_nonmate.
+    + destruct (maxFrustrated <=? a).
+      * left. split; reflexivity.
+      * destruct (b <=? - maxFrustrated).
+        -- left. split; reflexivity.
+        -- split; [reflexivity|]. split; [reflexivity|]. split; [|intros H; congruence].
+           left. repeat split.
+Qed.
